@@ -25,7 +25,7 @@ CfgOf(c) == [api |-> c.api, mask |-> c.mask, nla |-> c.nla, check |-> c.check, a
              \* second connection of the same Connector / Ntlm object: the exported session key of the first one
              prevKey |-> IF "prev_exported" \in DOMAIN c THEN c.prev_exported ELSE <<>>]
 
-Trusted(ident) == ident \in {"leaf", "leaf2"}
+Trusted(ident) == ident \in {"leaf", "leaf2", "edff", "edfe"}
 
 TInit == /\ l = 1 /\ act = "WaitDemandActive" /\ shareId = <<>> /\ userId = 0
          /\ out = <<>> /\ cbs = <<>> /\ inres = "none" /\ obs = ObsInit
